@@ -1,9 +1,11 @@
 (* C07 (codec part) - message extraction is independent of how TCP segments the byte stream.
    Only statements; proofs by `exact`.  `feed parse` is one read of the connection followed by
    streamConn.Dispatch (Lib/Seg.v); bolt_parse / boltv2_parse are derived from the decoder models. *)
-From Coq Require Import List NArith Bool.
+From Coq Require Import List NArith Bool Permutation.
 From MV Require Import Lib.Bytes Lib.Dec Lib.Seg Gen.ProtoConsts Gen.CodecSrc Model.HeaderKV Model.Bolt Model.Xcodecs
-  Proofs.HeaderKV Proofs.Bolt Proofs.Xcodecs.
+  Proofs.HeaderKV Proofs.Bolt Proofs.Xcodecs Model.Matchers Proofs.Matchers.
+(* the comparison functions used by the correspondence shards: imported so that they are rebuilt with this file *)
+From MV Require Model.BoltCheck Model.XCheck.
 Import ListNotations.
 Open Scope N_scope.
 
@@ -138,3 +140,44 @@ Example c07_dubbo_example :
   let fr := [218;187;2;20; 0;0;0;0;0;0;0;9; 0;0;0;1; 65] in
   exists f, frame_bytes_ok (dubbo_parse_nz (fun _ => false)) (f, fr) /\ tail_ok (dubbo_parse_nz (fun _ => false)) [218;187;2].
 Proof. eexists. split; [unfold frame_bytes_ok; cbn [fst snd]; vm_compute; reflexivity|right; vm_compute; reflexivity]. Qed.
+
+(* ===== protocol matchers and automatic protocol detection ===== *)
+(* every matcher (bolt, boltv2, dubbo, dubbo-thrift, tars, HTTP/1, HTTP/2) is monotone on prefixes:
+   once it answers Success or Failed, later bytes never change the answer; only Again may change *)
+Theorem c07_match_monotone : forall p b e r, r <> MAgain -> matcher p b = r -> matcher p (b ++ e) = r.
+Proof. exact matcher_monotone. Qed.
+Print Assumptions c07_match_monotone.
+
+(* SelectStreamFactoryProtocol iterates a Go map: for bytes that at most one matcher accepts its result is the same
+   for every iteration order, and a protocol chosen on a prefix is the protocol chosen on every longer read *)
+Theorem c07_select_order_independent : forall b order order', Permutation order order' -> at_most_one b ->
+  select order b = select order' b.
+Proof. exact select_order_independent. Qed.
+Print Assumptions c07_select_order_independent.
+Theorem c07_select_prefix_stable : forall b e order p, at_most_one (b ++ e) ->
+  select order b = SelProto p -> select order (b ++ e) = SelProto p.
+Proof. exact select_prefix_stable. Qed.
+Print Assumptions c07_select_prefix_stable.
+
+(* exclusivity: the full statement "no two matchers accept the same bytes" is false on the code as it is *)
+Definition c07_match_exclusive_statement : Prop := forall b, wf_bytes b -> at_most_one b.
+Theorem c07_match_exclusive_refuted : ~ c07_match_exclusive_statement.
+Proof.
+  intros H. assert (E : PBolt = PThrift) by (apply (H collide_frame); [repeat constructor|vm_compute; reflexivity|vm_compute; reflexivity]).
+  discriminate E.
+Qed.
+Print Assumptions c07_match_exclusive_refuted.
+Theorem c07_select_depends_on_map_order :
+  matcher PBolt collide_frame = MSuccess /\ matcher PThrift collide_frame = MSuccess /\
+  select [PBolt; PThrift] collide_frame <> select [PThrift; PBolt] collide_frame.
+Proof. exact exclusivity_refuted. Qed.
+(* the strongest true restriction: two different matchers accept the same bytes only if one of them is dubbo-thrift
+   (its magic sits at offset 4..5, where bolt carries the version byte and the request id, dubbo the request id, ...);
+   the six others are pairwise exclusive, and dubbo-thrift accepts exactly when bytes 4,5 are 0xda 0xbc *)
+Theorem c07_match_exclusive_partial : forall b p q, wf_bytes b -> p <> q ->
+  matcher p b = MSuccess -> matcher q b = MSuccess -> p = PThrift \/ q = PThrift.
+Proof. exact two_successes_involve_thrift. Qed.
+Print Assumptions c07_match_exclusive_partial.
+Theorem c07_thrift_accepts_iff : forall b, thrift_match b = MSuccess <-> 6 <= blen b /\ byte_at b 4 = 218 /\ byte_at b 5 = 188.
+Proof. exact thrift_success_iff. Qed.
+Print Assumptions c07_thrift_accepts_iff.
